@@ -76,7 +76,8 @@ static void stage_tlds(Run &R) {
     auto go = [&](const Bytes &b) -> bool { total++; if ((int) (idx++ % R.a.nworkers) != R.a.worker) return true; return run_one(R, b); };
     for (size_t i = 0; i < K.T.idn_u.size(); i++) {
         const Bytes &u = K.T.idn_u[i], &a = K.T.idn_a[i];
-        for (const Bytes &d : {"x." + u, u + "." + u, "mail.sub." + u, u, a + "." + u, u + "." + a, "\xD0\xBF\xD0\xBE\xD1\x87\xD1\x82\xD0\xB0." + u, "X." + u, u + ".com", "x." + a}) if (!go(d)) return;
+        Bytes A = a; for (auto &c : A) c = (char) toupper((unsigned char) c);
+        for (const Bytes &d : {"x." + u, u + "." + u, "mail.sub." + u, u, a + "." + u, u + "." + a, "\xD0\xBF\xD0\xBE\xD1\x87\xD1\x82\xD0\xB0." + u, "X." + u, u + ".com", "x." + a, "x." + A, u + "." + A, A + "." + u, "\xD0\xBF\xD0\xBE\xD1\x87\xD1\x82\xD0\xB0." + A}) if (!go(d)) return;
     }
     R.space("C10 every IDN TLD row (" + std::to_string(K.T.idn_u.size()) + ") in U- and A-form x 10 placements", total);
 }
